@@ -222,7 +222,7 @@ DIMS = [
     ("align", ["none", "a", "s", "as", "origin", "s+origin"]),
     ("n_to_align", [-1, 4]),
     ("downsample", [None, 5]),
-    ("motion_filter", [None, (0.5, 30.0)]),
+    ("motion_filter", [None, (0.5, 30.0), (100.0, 40.0)]),
     ("t_max_diff", [0.01, 0.3]),
     ("t_offset", [0.0, 0.125]),
     ("crop", [None, (1.5, 4.0)]),
